@@ -93,11 +93,15 @@ def build_graph(n, shape_idx, body_idx, cond_idx, alphabet, conds, epi="add-ret"
     return g
 
 
+CPU_LIMIT = 10           # seconds of CPU time for one analysis of one graph (normal: < 0.1 s)
+MAX_HANGS_PER_SHARD = 2  # after that many non-terminating analyses a shard stops and counts what it did not run
+
+
 class PipelineTimeout(Exception):
     pass
 
 
-def guarded(fn, cpu_seconds=30):
+def guarded(fn, cpu_seconds=None):
     """Runs fn(); a pipeline still running after @cpu_seconds of CPU time of this process (normal: < 0.1 s) is
     reported as not terminating (the timer counts consumed CPU time, not wall-clock time)."""
     import signal
@@ -105,7 +109,7 @@ def guarded(fn, cpu_seconds=30):
     def onalarm(signum, frame):
         raise PipelineTimeout()
     old = signal.signal(signal.SIGVTALRM, onalarm)
-    signal.setitimer(signal.ITIMER_VIRTUAL, cpu_seconds)
+    signal.setitimer(signal.ITIMER_VIRTUAL, cpu_seconds or CPU_LIMIT)
     try:
         return fn()
     finally:
@@ -322,7 +326,7 @@ def check_graph(n, shape_idx, body_idx, cond_idx, alphabet, conds, pipelines=PIP
             out, var2orig = guarded(lambda: run_pipeline(pipeline, lifter, g.ircfg, g.head))
         except PipelineTimeout:
             info["raised"] += 1
-            vs.append(violation("%s:pipeline-does-not-terminate:%s" % (pipeline, kind), "%s: the pipeline is still running after 30 s of CPU time" % desc, case))
+            vs.append(violation("%s:pipeline-does-not-terminate:%s" % (pipeline, kind), "%s: the pipeline is still running after %d s of CPU time" % (desc, CPU_LIMIT), case))
             continue
         except Exception as e:
             info["raised"] += 1
@@ -362,7 +366,7 @@ def check_x86(idx, pipelines=X86_PIPELINES):
             out, var2orig = guarded(lambda: run_pipeline(pipeline, f.lifter, f.ircfg, f.head))
         except PipelineTimeout:
             info["raised"] += 1
-            vs.append(violation("%s:pipeline-does-not-terminate:%s" % (pipeline, kind), "%s: the pipeline is still running after 30 s of CPU time" % desc, case))
+            vs.append(violation("%s:pipeline-does-not-terminate:%s" % (pipeline, kind), "%s: the pipeline is still running after %d s of CPU time" % (desc, CPU_LIMIT), case))
             continue
         except Exception as e:
             info["raised"] += 1
@@ -395,6 +399,8 @@ def _shard(args):
     sigs = {}
     tot = {}
     sample = None
+    hangs = 0
+    stop = False
     for si in range(lo, hi):
         shape = shapes[si]
         if not irgen.shape_has_exit(shape):
@@ -414,6 +420,23 @@ def _shard(args):
                     sigs[x["sig"]] = sigs.get(x["sig"], 0) + 1
                     if sigs[x["sig"]] <= 2:
                         vs.append(x)
+                    if ":pipeline-does-not-terminate:" in x["sig"] or x["sig"].startswith("propagate_cst_expr:does-not-terminate"):
+                        hangs += 1
+                if hangs >= MAX_HANGS_PER_SHARD:
+                    stop = True
+                    break
+            if stop:
+                break
+        if stop:
+            break
+    planned = 0
+    for si in range(lo, hi):
+        if irgen.shape_has_exit(shapes[si]):
+            k = len(bl) ** n
+            for sx in shapes[si]:
+                k *= len(conds) if len(sx) == 2 else 1
+            planned += k
+    tot["not_run"] = planned - cnt
     return cnt, nt, vs, sample, sigs, tot
 
 
@@ -491,6 +514,7 @@ def run(ctx):
         "compared_runs_with_memory_writes": tot.get("runs_with_writes", 0),
         "compared_runs_with_call_events": tot.get("runs_with_calls", 0),
         "x86_functions": nx86,
+        "graphs_not_run_after_repeated_non_termination": tot.get("not_run", 0),
         "violating_graphs_by_signature": sigcount,
         "samples": [r[3] for r in res if r[3]][:6],
         "exhaustive": True,
